@@ -463,7 +463,7 @@ impl Instruction
 							{
 								return Err(DecodeError::Unpredictable{instr0, instr1: None});
 							}
-							let enable = ((instr0 >> 4) & 1) != 0;
+							let enable = ((instr0 >> 4) & 1) == 0;
 							Ok((2, Self::Cps{enable}))
 						}
 						else {Err(DecodeError::Undefined{instr0, instr1: None})}
@@ -861,7 +861,7 @@ impl Instruction
 			},
 			Instruction::Cps{enable} =>
 			{
-				s(0b10110110011_0_0010 | ((enable as u16) << 4))
+				s(0b10110110011_0_0010 | ((!enable as u16) << 4))
 			},
 			Instruction::Dmb =>
 			{
